@@ -207,6 +207,24 @@ class DomainAdapter(Adapter):
                 bad('RoundTrip.real', err=rel(d.to_real(d.to_fourier(x)), x0), bound=rt)
             if rel(d.to_fourier(d.to_real(x)), x0) > rt:
                 bad('RoundTrip.fourier', err=rel(d.to_fourier(d.to_real(x)), x0), bound=rt)
+            # "for every array": element types other than float64 (a mask, an integer-valued Mayer function, single precision).
+            # The values are small integers / halves, exactly representable in every type used; integer input must give what the
+            # same values as float64 give; single-precision input is judged at single-precision rounding (the statement does not
+            # say in which precision such an array is transformed)
+            z = self.rng.randint(-3, 4, n)
+            for dt, t in (('int64', tol), ('int32', tol), ('int8', tol), ('bool', tol), ('float32', 1e-5)):
+                zz = (np.abs(z) > 1) if dt == 'bool' else z.astype(dt)
+                zf = np.asarray(zz, dtype=float)
+                keep = zz.copy()
+                for name, fn, M in (('forward', d.to_fourier, MF), ('backward', d.to_real, MR)):
+                    got = np.asarray(fn(zz), dtype=float)
+                    if got.shape != (n,) or rel(got, M @ zf) > t:
+                        bad('Linear.%s.dtype' % name, dtype=dt, err=rel(got, M @ zf) if got.shape == (n,) else None,
+                            what='transform of a %s array differs from the transform of the same values as float64' % dt)
+                if dt != 'float32' and rel(np.asarray(d.to_real(d.to_fourier(zz)), dtype=float), zf) > rt:
+                    bad('RoundTrip.real.dtype', dtype=dt)
+                if not np.array_equal(zz, keep) or zz.dtype != keep.dtype:
+                    bad('TransformLeavesInputUnmodified', dtype=dt)
         if 'matrixarray' in self.which and not out:
             # memory layouts a user's array may have: C order, Fortran order, the per-matrix transpose view, a
             # pair-major (rank, rank, n) table transposed, every second row of a longer array
